@@ -348,6 +348,8 @@ def delete(filething):
     if dsf_file.dsd_chunk.offset_metdata_chunk != 0:
         id3_location = dsf_file.dsd_chunk.offset_metdata_chunk
         dsf_file.dsd_chunk.offset_metdata_chunk = 0
+        # the file ends where the metadata started
+        dsf_file.dsd_chunk.total_size = id3_location
         dsf_file.dsd_chunk.write()
 
         filething.fileobj.seek(id3_location)
